@@ -169,7 +169,7 @@ func main() {
 		case "psrc":
 			c := components.NewParamSource(wf, p.Name, p.Values...)
 			procs[p.Name], owners[p.Name] = c, c
-		case "cmd", "gofunc":
+		case "cmd", "gofunc", "gofunc_ipwrite":
 			ins := append([]string{}, p.Ins...)
 			sort.Strings(ins)
 			ps := append([]string{}, p.Params...)
@@ -216,6 +216,15 @@ func main() {
 			proc.Prepend = p.Prepend
 			if p.Kind == "gofunc" {
 				proc.CustomExecute = func(t *sp.Task) { goFuncTask(t, p) }
+			}
+			if p.Kind == "gofunc_ipwrite" {
+				// the documented way (examples/custom_execution_function): task.OutIP(port).Write(data)
+				proc.CustomExecute = func(t *sp.Task) {
+					for _, o := range p.Outs {
+						id := strings.TrimSuffix(filepath.Base(t.OutIP(o).Path()), ".txt")
+						t.OutIP(o).Write([]byte("BEGIN " + id + "\nEND " + id + "\n"))
+					}
+				}
 			}
 			procs[p.Name], owners[p.Name] = proc, proc
 			cmdProcs[p.Name] = proc
